@@ -25,6 +25,8 @@ type faultReply struct {
 	Outcome       string // forwarder-NNN (the proxy's own error response) | relayed-NNN | no-response
 	Hits          int    // connections that met the fault
 	SawAuth       bool   // a faulted connection carried the configured credentials
+	Status        int    // PAC phase (pac.go): status of the last response, client-side error if there was none
+	Err           string
 }
 
 // faults that are decided before the peer reads anything race with the proxy's write of the
@@ -39,6 +41,11 @@ var (
 // (no flag shortens that): a client CONNECT, or an intercepted request on its way to the origin.
 func slowStall(site, kind string) bool {
 	return site == "upstream" && (kind == "connect" || kind == "mitm-get")
+}
+
+// slow: the same for every request through a stalled SOCKS5 proxy (the handshake is part of the dial).
+func (fr *faultRunner) slow(site *front, kind string) bool {
+	return slowStall(site.name, kind) || site.socks
 }
 
 func faultForSite(site, fault string) string {
@@ -73,7 +80,7 @@ func (fr *faultRunner) one(site *front, kind, fault string, deterministic bool) 
 	timeout := 4 * time.Second
 	if fault == "stall" {
 		timeout = stallTimeout + 3*time.Second
-		if slowStall(site.name, kind) {
+		if fr.slow(site, kind) {
 			// CONNECT to an upstream proxy waits up to a fixed minute: the client gives up first
 			timeout = 400 * time.Millisecond
 		}
@@ -139,7 +146,7 @@ func (fr *faultRunner) afterHead() {
 			for _, fault := range faultsAfterHead {
 				fr.one(site, kind, faultForSite(site.name, fault), true)
 			}
-			if fr.c.Stall && kind != "connect" && !slowStall(site.name, kind) {
+			if fr.c.Stall && kind != "connect" && !fr.slow(site, kind) {
 				fr.one(site, kind, "stall", true)
 			}
 		}
@@ -153,7 +160,7 @@ func (fr *faultRunner) racy() {
 			for _, fault := range faultsAtAccept {
 				fr.one(site, kind, fault, false)
 			}
-			if fr.c.Stall && slowStall(site.name, kind) {
+			if fr.c.Stall && fr.slow(site, kind) {
 				fr.one(site, kind, "stall", false)
 			}
 		}
